@@ -16,21 +16,61 @@ BOUNDS = {
     "quick": {"inductive_step": "pre-states: 4 states x <= 2 outstanding operations (each search or not; on the server also ids that are in the search registry but no longer outstanding) with symbolic distinct ids <= 60, symbolic counter <= 61; one call of each of the 24 client / 20 server operations (18/14 plain + 6/6 carrying a paged-results control with a symbolic cookie) with symbolic id, result code 0..80, drain amount -4..40 or None", "bmc": "every sequence of 2 operations (control-carrying variants included) from a fresh client and a fresh server"},
     "thorough": {"inductive_step": "same", "bmc": "every sequence of 2 (with control-carrying variants) and 3 operations; every sequence of 4 server operations (14^4)"},
 }
-OUTSIDE = ["more than 2 simultaneously outstanding operations in the inductive step", "ids above 60 (multi-octet INTEGER encodings are C01/C07's subject)", "a response whose kind does not match the operation its id belongs to (not specified by the property)"]
+OUTSIDE = ["ids between 61 and 10^4400 (one huge id per response call is tried) ", "more than 2 simultaneously outstanding operations in the inductive step", "ids above 60 (multi-octet INTEGER encodings are C01/C07's subject)", "a response whose kind does not match the operation its id belongs to (not specified by the property)"]
 ASSUMPTIONS = ["symbolic pre-states are injected into the session attributes; every real-mode run (path validation, replay) reaches the same abstract state through public calls only", "pending output is observed by draining a deep copy of the session (public API only); pending octets arise from real sends (BMC sequences), never by injection"]
 EXPLANATION = "symbolic execution of one/k session calls; post-conditions from an independent ghost model are z3 validity queries"
 PROPS = ("C10",)
 
 
+HUGE_OPS = ["bind_response", "extended_response", "notice", "search_entry", "search_reference", "search_done"]
+
+
+def _huge_units():
+    # a candidate id far beyond any machine word (never received): the refusal has to be an LDAPError
+    return [{"name": f"hugeid_{pre}_{op}", "shape": {"kind": "hugeid", "op": op, "pre": pre}} for pre in ("fresh", "opened") for op in HUGE_OPS]
+
+
 def units(tier):
     if tier == "quick":
-        return sess.step_units(tier) + sess.bmc_units(tier, 2)
+        return sess.step_units(tier) + sess.bmc_units(tier, 2) + _huge_units()
     # depth 4 on the server (which responses may be emitted is the server's business)
     f = lambda side, op: side == "server"  # noqa: E731
-    return sess.step_units(tier) + sess.bmc_units(tier, 2) + sess.bmc_units(tier, 3) + sess.bmc_units(tier, 4, f)
+    return sess.step_units(tier) + sess.bmc_units(tier, 2) + sess.bmc_units(tier, 3) + sess.bmc_units(tier, 4, f) + _huge_units()
+
+
+def _hugeid(ctx, shape):
+    S, M = ctx.L.session, ctx.L.messages
+    srv = S.LDAPServer()
+    if shape["pre"] == "opened":
+        srv.receive(M.ExtendedRequest(1, [], "1.2", None).pack(M.PackingOptions()))
+    mid = 10**4400
+    op = shape["op"]
+    before = sess.pending(ctx, srv)
+    try:
+        if op == "bind_response":
+            srv.bind_response(mid)
+        elif op == "extended_response":
+            srv.extended_response(mid, "1.2")
+        elif op == "notice":
+            srv.extended_response(mid, sess.NOTICE)
+        elif op == "search_entry":
+            srv.search_result_entry(mid, "cn=a", [])
+        elif op == "search_reference":
+            srv.search_result_reference(mid, ["ldap://x"])
+        else:
+            srv.search_result_done(mid)
+        ctx.fail("C10:response-emitted-for-a-request-that-is-not-outstanding", "huge-message-id:" + op)
+    except Exception as e:  # noqa: BLE001
+        if not isinstance(e, S.LDAPError):
+            # reported under a signature of its own: the id has more digits than CPython converts to
+            # text, and the refusal builds its message from the id
+            ctx.report("C10:refusal-of-a-huge-message-id-fails-with-foreign-exception", f"{op}:{type(e).__name__}")
+    ctx.require(ctx.eq(sess.pending(ctx, srv), before), "C10:refused-call-left-bytes-queued:" + op)
 
 
 def body(ctx, shape):
+    if shape["kind"] == "hugeid":
+        return _hugeid(ctx, shape)
     if shape["kind"] == "step":
         return sess.run_step(ctx, shape, PROPS)
     return sess.run_bmc(ctx, shape, PROPS)
